@@ -23,6 +23,35 @@ use std::collections::{BTreeSet, HashMap};
 
 pub type Gcv = GraphColoredVertices;
 
+/// Prior history of the evaluating thread: before the evaluation under test, the same thread
+/// evaluates `formulae` on another network (`model`, aeon text) with `k` spare sets. The library
+/// has no state that could carry over - which is exactly what this is meant to confirm.
+#[derive(Clone, Debug, PartialEq)]
+pub struct Prelude {
+    pub model: String,
+    pub k: u16,
+    pub formulae: Vec<String>,
+}
+
+static PRELUDE: std::sync::Mutex<Option<Prelude>> = std::sync::Mutex::new(None);
+
+pub fn set_prelude(p: Option<Prelude>) {
+    *PRELUDE.lock().unwrap() = p;
+}
+
+fn run_prelude() {
+    let p = PRELUDE.lock().unwrap().clone();
+    if let Some(p) = p {
+        if let Ok(bn) = biodivine_lib_param_bn::BooleanNetwork::try_from(p.model.as_str()) {
+            if let Ok(g) = biodivine_hctl_model_checker::mc_utils::get_extended_symbolic_graph(&bn, p.k) {
+                for f in &p.formulae {
+                    let _ = mc::model_check_formula_dirty(f, &g);
+                }
+            }
+        }
+    }
+}
+
 #[derive(Clone, Copy, Debug, PartialEq, Eq)]
 pub enum Mode {
     /// model_check_multiple_extended_formulae_dirty
@@ -199,6 +228,7 @@ fn strs(fs: &[F]) -> Vec<String> {
 
 /// Evaluate a batch through the chosen entry point.
 pub fn eval_batch(env: &Env, fs: &[F], mode: Mode, obs: &mut Observer) -> Result<Vec<Gcv>, String> {
+    run_prelude();
     let s = strs(fs);
     let sr: Vec<&str> = s.iter().map(|x| x.as_str()).collect();
     let g = &env.graph;
@@ -279,6 +309,7 @@ pub fn eval_batch(env: &Env, fs: &[F], mode: Mode, obs: &mut Observer) -> Result
 
 /// Reference: the formula on its own through the single-formula raw entry point.
 pub fn alone(env: &Env, f: &F) -> Result<Gcv, String> {
+    run_prelude();
     mc::model_check_extended_formula_dirty(&f.render(), &env.graph, &env.ctx)
 }
 
@@ -286,6 +317,7 @@ pub fn alone(env: &Env, f: &F) -> Result<Gcv, String> {
 /// contains no sub-formula at all; only the wild-card terminals keep their occurrence counters,
 /// because wild-cards are served *only* through the cache.
 pub fn nocache(env: &Env, f: &F) -> Result<Gcv, String> {
+    run_prelude();
     let g = &env.graph;
     let tree = parse_and_minimize_extended_formula(g.symbolic_context(), &f.render())?;
     if !check_hctl_var_support(g, tree.clone()) {
